@@ -1,9 +1,10 @@
 #!/usr/bin/env python3
+"""Print the lake targets (theorem modules + drivers) of all claimed properties."""
 import json, glob, os
 ROOT = os.path.dirname(os.path.dirname(os.path.abspath(__file__)))
 ds = set()
 for p in glob.glob(os.path.join(ROOT, "props", "C*.json")):
     c = json.load(open(p))
     if not c.get("disabled"):
-        ds.add(c["driver"])
+        ds.add(c["driver"]); ds.add(c["lean_module"])
 print(" ".join(sorted(ds)))
